@@ -1,9 +1,11 @@
 """C01 - every value a configuration holds satisfies its field's declared constraints;
 read-back is the normal form; frame.  Decided on spec/ConfigMachine.tla (see cfgmachine.py)."""
-from . import cfgmachine
+from . import cfgfamily, cfgmachine
 
 
 def run(tier, seed):
     out = cfgmachine.run_machine("C01", ["C01_AllValid"], ["C01_Readback"], tier, seed)
     # second instance: the textual / numeric field classes inside a configuration
-    return cfgmachine.merge(out, cfgmachine.run_machine("C01", ["C01_AllValid"], ["C01_Readback"], tier, seed + 7, schema="SchemaB"))
+    out = cfgmachine.merge(out, cfgmachine.run_machine("C01", ["C01_AllValid"], ["C01_Readback"], tier, seed + 7, schema="SchemaB"))
+    # third: the generated schema family (every schema shape, generic candidate values)
+    return cfgmachine.merge(out, cfgfamily.run_family("C01", ["C01_AllValid"], ["C01_Readback"], tier, seed))
